@@ -7,6 +7,7 @@ mod codec;
 mod deque;
 mod footprint;
 mod pipe;
+mod readn;
 mod stream;
 mod util;
 
@@ -20,6 +21,7 @@ fn main() {
     match args[1].as_str() {
         "deque" => deque::drive_deque(&args[2], &args[3]),
         "codec" => codec::drive_codec(&args[2], &args[3]),
+        "readn" => readn::drive_readn(&args[2], &args[3]),
         "footprint" => footprint::drive_footprint(&args[2], &args[3]),
         "pipe" => pipe::drive_pipe(&args[2], &args[3]),
         "stream" => stream::drive_stream(&args[2], &args[3]),
